@@ -176,6 +176,12 @@ def point_objects(ctx, ci, cis):
         for z0 in (0, ci.p):
             out.append({"object": "PointJacobi", "point_curve": own, "x": 0, "y": 0, "jac": (x, y, z0), "order": None, "class": "jacobian-z0"})
         out.append({"object": "PointJacobi", "point_curve": own, "x": x + ci.p, "y": y, "order": None, "class": "own-curve-alias"})
+        # coordinates that are aliases mod p of a valid point, through BOTH classes (the legacy Point is converted with
+        # from_affine before the range check runs; round-8 seed C08-mut48-2 reduced the coordinates there)
+        for obj in ("PointJacobi", "Point"):
+            for (dx, dy) in ((ci.p, 0), (0, ci.p), (-ci.p, 0), (0, -ci.p), (ci.p, ci.p), (2 * ci.p, 0)):
+                out.append({"object": obj, "point_curve": own, "x": x + dx, "y": y + dy, "order": ci.n if obj == "PointJacobi" else None,
+                            "class": "own-curve-alias-" + obj})
         # foreign curve objects through the same coordinates
         a2 = (ci.a + 1 + rng.randrange(5)) % ci.p
         out.append({"object": "PointJacobi", "point_curve": (ci.p, a2, (y * y - x ** 3 - a2 * x) % ci.p, 1), "x": x, "y": y,
